@@ -18,6 +18,9 @@ class Module:
     gen_workers = 2
     level = "model_checking"
     begin_marker = '"ev":"Begin"'   # how a scenario's first trace line is recognised
+    gen_module = None               # default: Gen_<name>
+    gen_spec = "GSpec"
+    gen_props = ""
     assumptions = []
 
     def gen_configs(self, prop, tier, sd):
@@ -48,10 +51,16 @@ class Module:
 def _gen_one(args):
     mod, scratch, (name, consts) = args
     wd = os.path.join(scratch, "gen-" + "".join(c if c.isalnum() or c in "-." else "_" for c in name))
-    cfg = "SPECIFICATION GSpec\nCONSTANTS\n%s\n%sCHECK_DEADLOCK FALSE\n" % (
-        consts, ("INVARIANTS %s\n" % mod.invariants) if mod.invariants else "")
-    rc, out = vlib.run_tlc(wd, "Gen_" + mod.name, cfg, workers=mod.gen_workers, timeout=3000,
+    cfg = "SPECIFICATION %s\nCONSTANTS\n%s\n%s%sCHECK_DEADLOCK FALSE\n" % (
+        mod.gen_spec, consts, ("INVARIANTS %s\n" % mod.invariants) if mod.invariants else "",
+        ("PROPERTIES %s\n" % mod.gen_props) if mod.gen_props else "")
+    neg = name.startswith("NEG:")
+    rc, out = vlib.run_tlc(wd, mod.gen_module or ("Gen_" + mod.name), cfg, workers=mod.gen_workers, timeout=3000,
                            java_opts="-Xmx3g -XX:ParallelGCThreads=2")
+    if neg:
+        if not vlib.tlc_violation(out):
+            raise vlib.ToolFailure("vacuity guard: the mutated model %s was expected to violate a property" % name)
+        return name, [], 0, 0
     if "No error has been found" not in out:
         if vlib.tlc_violation(out):
             raise vlib.ToolFailure("design-level invariant violated in Gen_%s (%s): the specification itself is "
@@ -88,6 +97,7 @@ def run(mod, prop, tier, replay=None, dev=False):
             ra = mod.random_args(prop, tier, sd, rnd)
             if ra:
                 vlib.run_driver(exe, ra)
+            if os.path.exists(rnd):
                 txt = open(rnd).read()
                 with open(scen_file, "a") as f:
                     f.write(txt)
